@@ -381,6 +381,20 @@ func (c *Ctx) checkFastToSlow(prefix, mname string, fn *ssa.Function, ft fastMap
 	var makeStore, nilStore *ssa.Store
 	var rng *ssa.Range
 	var copyOK bool
+	// the fresh map may be filled through the field or through a local that is
+	// published into the field afterwards
+	var fresh ssa.Value
+	for _, b := range fn.Blocks {
+		for _, ins := range b.Instrs {
+			if x, ok := ins.(*ssa.Store); ok {
+				if fa, ok := x.Addr.(*ssa.FieldAddr); ok && sameField(fieldOf(fa), ft.slow) {
+					if mk, isMake := x.Val.(*ssa.MakeMap); isMake {
+						fresh = mk
+					}
+				}
+			}
+		}
+	}
 	for _, b := range fn.Blocks {
 		for _, ins := range b.Instrs {
 			switch x := ins.(type) {
@@ -403,7 +417,7 @@ func (c *Ctx) checkFastToSlow(prefix, mname string, fn *ssa.Function, ft fastMap
 					rng = x
 				}
 			case *ssa.MapUpdate:
-				if !fieldLoad(x.Map, ft.slow) {
+				if !fieldLoad(x.Map, ft.slow) && (fresh == nil || x.Map != fresh) {
 					continue
 				}
 				// key = cell.Key (field 0), value = cell.Value (field 1) of the same cell
